@@ -246,7 +246,7 @@ pub fn run(t: &[String]) -> String {
                     ctx.wal.as_ref().unwrap().append(entry).await;
                 }
                 ctx.wal.as_ref().unwrap().shutdown().await;
-                for _ in 0..500 {
+                for _ in 0..3000 {
                     if count_wal_lines(&wal) >= k1 { break; }
                     tokio::time::sleep(std::time::Duration::from_millis(10)).await;
                 }
@@ -362,7 +362,7 @@ pub fn run(t: &[String]) -> String {
                     let errs = mgr.shutdown_all().await;
                     if !errs.is_empty() { return Err(format!("shutdown {errs:?}")); }
                     if !flush {
-                        for _ in 0..500 {
+                        for _ in 0..3000 {
                             if count_wal_lines(&wal.join("shard-0")) >= x { break; }
                             tokio::time::sleep(std::time::Duration::from_millis(10)).await;
                         }
